@@ -63,14 +63,15 @@ const HOSTILE_NAMES: [&str; 34] = [
     "Indexed", "ICCBased", "Pattern", "CalRGB", "Lab", "Identity-H", "FlateDecode", "LZWDecode", "DCTDecode", "CCITTFaxDecode", "JBIG2Decode", "JPXDecode", "Crypt", "RunLengthDecode", "ASCII85Decode", "Identity",
 ];
 
-const PAYLOADS: [&str; 49] = [
+const PAYLOADS: [&str; 66] = [
     // expanded when applied: 150 000 '%' without a line end; 150 000 '(' (unbalanced string)
     "@percent_run", "@paren_run",
     // 100 000 line continuations inside one string
     "@backslash_newline_run",
     // inline images without data
     "BI /W 2 /H 2 /BPC 8 /CS /G ID\nEI", "BI ID\nEI", "BI /W 1 /H 1 ID\r\nEI", "BI /W 1 /H 1 /BPC 8 /CS /G ID EI", "BI /W 1 /H 1 ID\nEI Q", "q BI /W 0 /H 0 ID\nEI",
-    // PostScript calculator programs
+    // PostScript calculator programs (operands at, just below and just above the stack depth)
+    "{ 1 index }", "{ 0 index }", "{ 2 index }", "{ dup 1 index }", "{ dup 2 index }", "{ 1 1 roll }", "{ 2 1 roll }", "{ 1 2 roll }", "{ dup 2 2 roll }", "{ dup 3 1 roll }", "{ pop 0 index }", "{ pop }", "{ exch }", "{ copy }", "{ 1 copy }", "{ 2 copy }", "{ dup 2 copy }",
     "{ 5 1 roll }", "{ 1 5 roll }", "{ 2 -2147483648 roll }", "{ 0 0 roll }", "{ 3 index }", "{ -1 index }", "}{", "{", "{ 1e39 1e39 mul 1 roll }",
     "{ 2147483647 2147483647 roll }", "{ dup dup dup dup roll }", "{ pop pop pop }", "{ 1 0 roll 0 index }", "{ 2 1e39 roll }",
     // ToUnicode CMaps
@@ -492,6 +493,18 @@ impl C14 {
         }
         // 3000 objects that all look alike: faults are planted in the first few only
         let mut singles: Vec<Vec<HFault>> = t.iter().map(|(name, s)| if *name == "long_chain" { single_faults_near(s, 8) } else { single_faults(s) }).collect();
+        // the 24-way appearance dictionaries of dag_misc are 24 copies of one entry: faults in the first two only
+        for (k, (name, _)) in t.iter().enumerate() {
+            if *name == "dag_misc" {
+                singles[k].retain(|f| {
+                    let site = match f {
+                        HFault::Retarget { site, .. } | HFault::Boundary { site, .. } | HFault::Nest { site, .. } | HFault::DropKey { site } | HFault::StrValue { site, .. } | HFault::NameValue { site, .. } => site,
+                        _ => return true,
+                    };
+                    !site.path.iter().any(|p| matches!(p, PathElem::Key(k) if k.starts_with('S') && k[1..].parse::<u32>().map_or(false, |n| n >= 2)))
+                });
+            }
+        }
         // the name-value and string-value faults are the bulk of the space (34 names / 14 strings per
         // site): the quick tier enumerates every third of them (in a fixed rotation), the thorough tier all
         if tier == Tier::Quick {
@@ -514,7 +527,9 @@ impl C14 {
         let mut total = 0u64;
         for s in singles.iter().take(enum_templates) {
             starts.push(total);
-            total += s.len() as u64 * CONFIGS.len() as u64 * 2;
+            // thorough: every single fault in all 4 configurations x {no, some} bytes before the header;
+            // quick: in all 4 configurations, the bytes before the header alternating with them
+            total += s.len() as u64 * CONFIGS.len() as u64 * if tier == Tier::Quick { 1 } else { 2 };
         }
         self.templates = t;
         self.singles = singles;
@@ -535,8 +550,12 @@ impl C14 {
                 Err(k) => k - 1,
             };
             let r = i - self.starts[idx];
-            let junk = if r % 2 == 1 { 13 } else { 0 };
-            let r = r / 2;
+            let (junk, r) = if ctx.tier == Tier::Quick {
+                // (fault index + configuration) decides: each fault meets both, each configuration meets both
+                (if (r / CONFIGS.len() as u64 + r % CONFIGS.len() as u64) % 2 == 1 { 13 } else { 0 }, r)
+            } else {
+                (if r % 2 == 1 { 13 } else { 0 }, r / 2)
+            };
             let f = self.singles[idx][(r / CONFIGS.len() as u64) as usize].clone();
             let c = CONFIGS[(r % CONFIGS.len() as u64) as usize];
             (idx, Case { template: self.templates[idx].0.to_string(), faults: vec![f], cfg: WalkCfg { tolerant: c.0, cached: c.1, stack: c.2 }, junk })
@@ -570,7 +589,7 @@ impl Check for C14 {
         CheckInfo {
             id: "C14",
             level: "fault_enumeration",
-            rule: "one case = a typed template (page tree; name tree + number tree + outlines; Type0/CID/simple fonts with /W, /Differences, ToUnicode; colour spaces with all four function types; stream /Length references, predictors, LZW, CCITT/DCT image parameters; hand-written object stream with /Extends under an xref stream; two-revision files with classic and stream sections; /Encrypt dictionaries that fail the password check and two RC4-encrypted 'rich' documents (plain and through crypt filters with object streams) that open with the empty user password; page tree, name tree and number tree that are DAGs; a 3000-link /Parent chain without a cycle (faults planted in its first 8 objects); annotations with appearance dictionaries; the 'rich' document) + structure-aware at-rest faults written through the harness's writer: retarget (every reference field x every object incl. itself, object 0 and an undefined number), boundary (every numeric field x {-1, 0, 1, 2^31-1, 2^32-1, 2^64-1}), nest (25 levels), stream /Length reference retargeted, stream data replaced by 49 hostile payloads (PostScript calculator programs, CMaps, content streams incl. inline images without data, object-stream headers, runs of 100 000-150 000 '%', '(' or escaped line ends), every dictionary entry removed, hostile stream dictionary entries (/Length disagreeing with the data, /Filter arrays of 1000 stages, mismatching /DecodeParms, /JBIG2Globals naming the stream itself), hostile /Size /Prev (incl. self-loop) /Root /W /Index /Length of trailer and xref stream; x {strict, tolerant} x {cached, uncached} x {2 MiB, 8 MiB stack} x {no bytes, some bytes before the header}; walked by the C01 walker under the same meters in a supervised worker process. every name value replaced by 34 names that select another reader and every string value by 14 hostile strings (dates with multi-byte text on a field border, lone byte-order marks, 10 000 bytes); Enumerated part: the complete single-fault space of all templates (thorough; quick: complete except name / string values, of which every third is taken); plus seeded cases with 2-3 simultaneous faults (100 000 quick, 2 000 000 thorough). Non-trivial = outcome differs from the unfaulted template; distinct = hash of (template, faults, configuration)",
+            rule: "one case = a typed template (page tree; name tree + number tree + outlines; Type0/CID/simple fonts with /W, /Differences, ToUnicode; colour spaces with all four function types; stream /Length references, predictors, LZW, CCITT/DCT image parameters; hand-written object stream with /Extends under an xref stream; two-revision files with classic and stream sections; /Encrypt dictionaries that fail the password check and two RC4-encrypted 'rich' documents (plain and through crypt filters with object streams) that open with the empty user password; page tree, name tree and number tree that are DAGs; a 3000-link /Parent chain without a cycle (faults planted in its first 8 objects); annotations with appearance dictionaries; the 'rich' document) + structure-aware at-rest faults written through the harness's writer: retarget (every reference field x every object incl. itself, object 0 and an undefined number), boundary (every numeric field x {-1, 0, 1, 2^31-1, 2^32-1, 2^64-1}), nest (25 levels), stream /Length reference retargeted, stream data replaced by 49 hostile payloads (PostScript calculator programs, CMaps, content streams incl. inline images without data, object-stream headers, runs of 100 000-150 000 '%', '(' or escaped line ends), every dictionary entry removed, hostile stream dictionary entries (/Length disagreeing with the data, /Filter arrays of 1000 stages, mismatching /DecodeParms, /JBIG2Globals naming the stream itself), hostile /Size /Prev (incl. self-loop) /Root /W /Index /Length of trailer and xref stream; x {strict, tolerant} x {cached, uncached} x {2 MiB, 8 MiB stack} x {no bytes, some bytes before the header} (quick: the last dimension alternates instead of multiplying); walked by the C01 walker under the same meters in a supervised worker process. every name value replaced by 34 names that select another reader and every string value by 14 hostile strings (dates with multi-byte text on a field border, lone byte-order marks, 10 000 bytes); Enumerated part: the complete single-fault space of all templates (thorough; quick: complete except name / string values, of which every third is taken); plus seeded cases with 2-3 simultaneous faults (100 000 quick, 2 000 000 thorough). Non-trivial = outcome differs from the unfaulted template; distinct = hash of (template, faults, configuration)",
             assumptions: vec![
                 "planting the hostile structure is generation (stated as such); the simulation part is the resource side: stack size, allocator cap and meters, log-event budget, worker process death".into(),
                 "same resource bounds as C01".into(),
